@@ -127,7 +127,7 @@ def main():
             results.append((s, f.result()))
 
     known, fixed = load_known()
-    violations, known_hits, undecided, tool = [], [], [], []
+    violations, known_hits, undecided, tool, other = [], [], [], [], []
     obligations = discharged = 0
     smt_ms = 0
     for s, r in results:
@@ -146,6 +146,9 @@ def main():
                     known_hits.append((kf[0], ent))
                 else:
                     violations.append(ent)
+            elif r['kind'] == 'kani' and tags and pid not in tags:
+                # an independently selected check of another property failed in a shared harness: not this property's business
+                other.append(ent)
             elif not tags and pid in ('C18',) and r['kind'] == 'verus' and not f.get('clauses'):
                 # a panic site / arithmetic / index obligation of the real code itself
                 violations.append(ent)
